@@ -2,3 +2,6 @@ import Geo.Props.C13
 #print axioms Geo.T13_from_points_contains
 #print axioms Geo.T13_ellipse_locus
 #print axioms Geo.T13_sphere_locus
+#print axioms Geo.T13_ellipse_code_form
+#print axioms Geo.T13_ellipse_code_locus
+#print axioms Geo.T13_sphere_code_locus
